@@ -1424,7 +1424,48 @@ def iter_next_value(ev, st, itv, elem_signed=False, depth=0):
             if lt is T.FALSE:
                 return NONE, itv
         raise Unsupported("step_by over %r" % (inner,))
+    if isinstance(itv, PrimV) and itv.kind == "flatmap":
+        outer, clo, cur = itv.data
+        for _ in range(100000):
+            if cur is not None:
+                opt, cur = iter_next_value(ev, st, cur, elem_signed, depth)
+                if not isinstance(opt.discr, int):
+                    raise Unsupported("flat_map over a symbolic iterator")
+                if opt.discr == 1:
+                    return opt, PrimV("flatmap", (outer, clo, cur))
+                cur = None
+            opt, outer = iter_next_value(ev, st, outer, elem_signed, depth)
+            if not isinstance(opt.discr, int):
+                raise Unsupported("flat_map over a symbolic iterator")
+            if opt.discr == 0:
+                return NONE, PrimV("flatmap", (outer, clo, None))
+            x = opt.payloads[1][0]
+            cur = as_iterator(ev, st, call_closure(ev, st, clo, [x], depth) if clo is not None else x)
+        raise Unsupported("flat_map does not terminate")
+    if isinstance(itv, PrimV) and itv.kind == "scan":
+        inner, state_oid, clo = itv.data
+        opt, new = iter_next_value(ev, st, inner, elem_signed, depth)
+        if not isinstance(opt.discr, int):
+            raise Unsupported("scan over a symbolic iterator")
+        if opt.discr == 0:
+            return NONE, PrimV("scan", (new, state_oid, clo))
+        r = call_closure(ev, st, clo, [Ref(state_oid, (), None, True), opt.payloads[1][0]], depth)
+        return r, PrimV("scan", (new, state_oid, clo))
     raise Unsupported("next() of %r" % (itv,))
+
+
+def as_iterator(ev, st, v):
+    """IntoIterator::into_iter of a value the iterator primitives model"""
+    if isinstance(v, ArrV):
+        return PrimV("arrayiter", (v, 0))
+    if isinstance(v, Ref):
+        t = ev.load(st, v) if v.win is None else None
+        if v.win is not None or isinstance(t, ArrV):
+            r = as_slice(ev, st, v)
+            return PrimV("sliceiter", (r, 0, r.mut))
+    if isinstance(v, EnumV) and set(v.payloads) <= {0, 1} and isinstance(v.discr, int):
+        return PrimV("arrayiter", (ArrV(v.discr, None, None, None, {0: v.payloads[1][0]} if v.discr else {}), 0))  # Option as an iterator
+    return v
 
 
 def _range_signed(ev, ctx):
@@ -1473,6 +1514,22 @@ def p_map(ev, st, ctx):
         if t["k"] == "adt" and t["def"] == "core::ops::Range":
             signed = any(ev.tys[x]["k"] == "int" and ev.tys[x]["signed"] for x in t["targs"])
     return PrimV("map", (ctx.args[0], ctx.args[1], signed))
+
+
+@prim("core::iter::Iterator::flat_map")
+def p_flat_map(ev, st, ctx):
+    return PrimV("flatmap", (ctx.args[0], ctx.args[1], None))
+
+
+@prim("core::iter::Iterator::flatten")
+def p_flatten(ev, st, ctx):
+    return PrimV("flatmap", (ctx.args[0], None, None))
+
+
+@prim("core::iter::Iterator::scan")
+def p_scan(ev, st, ctx):
+    # the closure gets `&mut state`: the state lives in an object of its own
+    return PrimV("scan", (ctx.args[0], st.alloc(ctx.args[1], "scan.state"), ctx.args[2]))
 
 
 @prim("core::iter::Iterator::zip")
